@@ -6,7 +6,8 @@
    * binding forms -- `x = v`, `x: T = v`, `[x, y] = v`, a named `from` counter -- resolve `x` inside the
      CURRENT FUNCTION only (all enclosing blocks up to and including the function's own scope); when
      nothing is found the form declares a new variable, so a same-named assignment in an inner function
-     is a different variable (TFun);
+     is a different variable (TFun); an entry registered by an earlier `modify x = ..` is an alias of the
+     captured variable, not a variable of the current function, and is passed over (/repo 2f6e39c);
    * all other forms -- `modify x = v`, `x op= v`, `x ?= v`, `x[i] = v`, `x.f = v`, `x[i] op= v`,
      `x.f op= v` -- resolve `x` lexically through every enclosing scope (TLex);
    * `modify x = v` compiles to store_object, which writes the variable named x that the current function
